@@ -41,7 +41,9 @@ fn new_vm() -> Box<vtex::Vm> {
 enum Op {
     Open,
     Close,
-    /// assignment to target `tgt` (index into Prog::targets) with form `f`, prefixed by \global if `g`
+    /// assignment to target `tgt` (index into Prog::targets) with form `f`, prefixed by \global if `g`.
+    /// `f | SAME`: the form `f` writes again the value that is current at this point (only for forms
+    /// whose value does not depend on the old one); scoping effects are those of any assignment.
     Assign { tgt: u8, f: u8, g: bool },
 }
 
@@ -77,6 +79,7 @@ struct Flags {
     command_restored: bool,
     globaldefs_forced_global: bool,
     globaldefs_forced_local: bool,
+    global_same_value_while_group_holds_save: bool,
     /// a \global-prefixed assignment ran while \globaldefs>0 and later an unprefixed one ran inside a group while \globaldefs=0
     prefix_under_positive_globaldefs_then_plain_at_zero: bool,
     max_depth: usize,
@@ -94,6 +97,7 @@ struct Built {
 }
 
 /// a probe point is written `;v1,v2:` – the terminator tells a complete probe from one cut short by a fatal error
+const SAME: u8 = 0x80;
 const SEP: char = ';';
 const TSEP: char = ',';
 const END: char = ':';
@@ -136,16 +140,20 @@ impl<'a> Prog<'a> {
         let mut flags = Flags::default();
         let mut n = 0usize;
         let mut prefixed_under_positive = false;
+        // which value index is current at every level ("" = the initial value): same ops, same scopes
+        let mut mi = Snapshots::new(vec![String::new(); self.targets.len()]);
         for op in &self.ops {
             match *op {
                 Op::Open => {
                     src.push('{');
                     m.open();
+                    mi.open();
                     flags.max_depth = flags.max_depth.max(m.depth());
                 }
                 Op::Close => {
                     src.push('}');
                     let ev = m.close()?;
+                    mi.close();
                     if ev.close_with_saved {
                         flags.nontrivial = true;
                     }
@@ -162,10 +170,16 @@ impl<'a> Prog<'a> {
                 Op::Assign { tgt, f, g } => {
                     let tgt = tgt as usize;
                     let kind = self.kinds[self.targets[tgt].0];
-                    let form = &self.target(tgt).forms[f as usize];
-                    let i = match self.rule {
-                        ValueRule::Counter => n % kind.nvals,
-                        ValueRule::ByDepth => (2 * m.depth() + g as usize) % kind.nvals,
+                    let same = f & SAME != 0;
+                    let form = &self.target(tgt).forms[(f & !SAME) as usize];
+                    let i = if same {
+                        // out of domain while the target still has its initial value (no form writes that)
+                        mi.get(tgt).parse::<usize>().ok()?
+                    } else {
+                        match self.rule {
+                            ValueRule::Counter => n % kind.nvals,
+                            ValueRule::ByDepth => (2 * m.depth() + g as usize) % kind.nvals,
+                        }
                     };
                     n += 1;
                     let gd: i64 = gd_target.map(|t| m.get(t).parse().unwrap()).unwrap_or(0);
@@ -183,6 +197,13 @@ impl<'a> Prog<'a> {
                         flags.prefix_under_positive_globaldefs_then_plain_at_zero = true;
                     }
                     let new = (form.apply)(m.get(tgt), i);
+                    if same {
+                        debug_assert_eq!(new, m.get(tgt));
+                        if scope == model::Scope::Global && m.some_group_holds_save(tgt) {
+                            flags.global_same_value_while_group_holds_save = true;
+                        }
+                    }
+                    mi.assign(tgt, i.to_string(), scope);
                     if g {
                         src.push_str("\\global");
                     }
@@ -210,7 +231,7 @@ impl<'a> Prog<'a> {
     }
     /// Human-readable history up to and including op `upto` (exclusive end).
     fn shape(&self, upto: usize) -> String {
-        let simple = self.targets.len() == 1 && self.ops.iter().all(|o| !matches!(o, Op::Assign { f, .. } if *f != 0));
+        let simple = self.targets.len() == 1 && self.ops.iter().all(|o| !matches!(o, Op::Assign { f, .. } if *f & !SAME != 0));
         let mut s = String::new();
         for op in &self.ops[..upto.min(self.ops.len())] {
             if !s.is_empty() {
@@ -221,9 +242,12 @@ impl<'a> Prog<'a> {
                 Op::Close => s.push('}'),
                 Op::Assign { tgt, f, g } => {
                     s.push(if g { 'G' } else { 'L' });
+                    if f & SAME != 0 {
+                        s.push('=');
+                    }
                     if !simple {
                         let t = self.target(tgt as usize);
-                        s.push_str(&format!("({}:{})", t.name, t.forms[f as usize].name));
+                        s.push_str(&format!("({}:{})", t.name, t.forms[(f & !SAME) as usize].name));
                     }
                 }
             }
@@ -349,6 +373,7 @@ fn run_case(idx: u64, prog: &Prog, acc: &mut Acc) -> Option<(Built, Vec<Vec<Stri
         (f.command_restored, "control_sequence_target_restored"),
         (f.globaldefs_forced_global, "globaldefs_positive_forced_global"),
         (f.globaldefs_forced_local, "globaldefs_negative_overrode_global_prefix"),
+        (f.global_same_value_while_group_holds_save, "global_assignment_of_current_value_while_a_group_holds_a_save"),
         (f.prefix_under_positive_globaldefs_then_plain_at_zero, "global_prefix_under_positive_globaldefs_then_plain_assignment_at_zero"),
         (f.max_depth >= 8, "nesting_depth_8_reached"),
     ] {
@@ -396,7 +421,7 @@ fn run_case(idx: u64, prog: &Prog, acc: &mut Acc) -> Option<(Built, Vec<Vec<Stri
                 match prog.ops[mm.pos - 1] {
                     Op::Open => "{".into(),
                     Op::Close => "}".into(),
-                    Op::Assign { tgt, f, g } => format!("{}{}:{}", if g { "\\global " } else { "" }, prog.kinds[prog.targets[tgt as usize].0].name, prog.target(tgt as usize).forms[f as usize].name),
+                    Op::Assign { tgt, f, g } => format!("{}{}:{}", if g { "\\global " } else { "" }, prog.kinds[prog.targets[tgt as usize].0].name, if f & SAME != 0 { format!("{} (same value)", prog.target(tgt as usize).forms[(f & !SAME) as usize].name) } else { prog.target(tgt as usize).forms[f as usize].name.to_string() }),
                 }
             };
             acc.class(&format!("FAIL {kindnames}: first divergence after `{last_op}`"));
@@ -717,6 +742,19 @@ fn main() {
         }
         run_hist_family(&mut ctx, "kind-pairs", &format!("every unordered pair of kinds ({pairs} pairs, \\globaldefs is one of the kinds with the assignments =1, =-1, =0): every history of exactly {len6} ops over {{, }}, local/\\global assignment to a target of kind A, local/\\global to a target of kind B ({len10} ops for the 10-op alphabets with \\globaldefs)"), blocks, 9001);
     }
+    // ---- (s) assignments that write the value that is already current ("unchanged => skip the save-stack work" shortcuts)
+    let same_alpha = vec![Op::Open, Op::Close, Op::Assign { tgt: 0, f: 0, g: false }, Op::Assign { tgt: 0, f: 0, g: true }, Op::Assign { tgt: 0, f: SAME, g: false }, Op::Assign { tgt: 0, f: SAME, g: true }];
+    {
+        let len = ctx.pick(6usize, 7usize);
+        let mut blocks = Blocks::new();
+        for (ki, k) in all.iter().enumerate() {
+            if ki == gd_index {
+                continue;
+            }
+            blocks.push(HistBlock { kinds: vec![k], targets: vec![(0, 0)], len, alpha: same_alpha.clone() }, pow(same_alpha.len(), len));
+        }
+        run_hist_family(&mut ctx, "same-value-histories", &format!("per kind ({} kinds): every history of exactly {len} ops over {{, }}, L(new value), G(new value), L(the value that is current), G(the value that is current) on the first target; a same-value op on a target that still has its initial value is outside the domain (skipped)", all.len() - 1), blocks, 6007);
+    }
     // ---- (g) one kind together with \globaldefs: longer histories than the pairs family, so that state kept by
     // the prefix machinery across a change of \globaldefs (e.g. a \global bit recorded but not consumed while
     // \globaldefs>0) meets a later unprefixed assignment after \globaldefs is back to 0
@@ -752,7 +790,7 @@ fn main() {
         let mut total = Acc::default();
         let mut per_kind = serde_json::Map::new();
         let mut capped: Option<String> = None;
-        let alpha = alphabet(&[(0, 0)]);
+        let alpha = same_alpha.clone();
         for (ki, k) in all.iter().enumerate() {
             if ki == gd_index {
                 continue;
@@ -786,7 +824,7 @@ fn main() {
         total.sample(0, || json!({"family": "xs-drained-state", "per_kind": per_kind.get("count")}));
         ctx.extra("xs", json!({"history_length_bound": depth, "nesting_bound": 8, "per_kind": per_kind,
             "fingerprint": "(depth, value of the target at every open level) read from the real VM by running the history followed by `}` x depth with a probe after each `}`; the assigned value is a function of (depth, prefix) so that merged states have equal futures in the model. States that differ only in whether a save-stack entry holds a value equal to the current one are not distinguished (the un-merged BEX families cover those)."}));
-        ctx.push_family("xs-drained-state", &format!("per kind: BFS over histories of {{, }}, local, \\global (first target, value = f(depth, prefix)) up to length {depth} at nesting depth <= 8, every history followed by a full drain with a probe after each `}}`; merged on the drained implementation state{}", if quick { "" } else { " (runs to the fixpoint: the complete reachable state space)" }), capped.is_none(), capped, t.elapsed().as_secs_f64(), total);
+        ctx.push_family("xs-drained-state", &format!("per kind: BFS over histories of {{, }}, local, \\global with a new value (= f(depth, prefix)) and local, \\global with the value that is current (first target) up to length {depth} at nesting depth <= 8, every history followed by a full drain with a probe after each `}}`; merged on the drained implementation state{}", if quick { "" } else { " (runs to the fixpoint: the complete reachable state space)" }), capped.is_none(), capped, t.elapsed().as_secs_f64(), total);
     }
 
     // informational, outside the property: \gdef under a negative \globaldefs (tex.web §1218: local)
@@ -809,6 +847,7 @@ fn main() {
     ctx.require("globaldefs_positive_forced_global", "an unprefixed assignment executed while \\globaldefs>0");
     ctx.require("globaldefs_negative_overrode_global_prefix", "a \\global assignment executed while \\globaldefs<0");
     ctx.require("global_prefix_under_positive_globaldefs_then_plain_assignment_at_zero", "a \\global-prefixed assignment ran while \\globaldefs>0 and a later unprefixed assignment ran inside a group with \\globaldefs=0");
+    ctx.require("global_assignment_of_current_value_while_a_group_holds_a_save", "a global assignment writes the value that is already current while an open group holds a saved value for the target");
     ctx.require("nesting_depth_8_reached", "a history reaches nesting depth 8");
     ctx.finish("a case is one operation history ({, }, local/\\global assignments) for one target kind or a pair of kinds, run as a TeX program on a fresh VM with a probe of every target after every op and compared with a stack-of-snapshots model at every probe; histories are enumerated exhaustively per family bound (index -> digits over the alphabet), never sampled; non-trivial = the history executes at least one `}` while the closing group holds a saved value for some target (computed on the model); distinct = distinct (kinds, history)");
 }
